@@ -98,6 +98,10 @@ type hBatch struct {
 	dispLine   string
 	dispParked bool
 	dispStack  string
+
+	// family idlestall: what the stall watchdog saw while this batch (which
+	// has an idle timeout) was still without a verdict
+	idleWd *idleWd
 }
 
 type state struct {
@@ -166,7 +170,8 @@ func (st *state) logLocked(e Event) int {
 	e.Ms = now.Sub(st.start).Milliseconds()
 	switch e.K {
 	case "peer_offer_not_taken", "quiet_watchdog_main", "quiet_watchdog_probe",
-		"probe_peer_not_taken", "pending_without_peer":
+		"probe_peer_not_taken", "pending_without_peer",
+		"idle_stall_watchdog", "idle_stall_outlived_worker_timeouts":
 		// the harness noting that nothing happened is not an event that
 		// restarts the quiet clock
 	default:
@@ -699,6 +704,8 @@ func Run(sc Scenario) *Result {
 	var submits sync.WaitGroup
 	if sc.Kind == "rank" {
 		st.runRank()
+	} else if sc.Kind == "idlestall" {
+		st.runIdleStall(&submits)
 	} else {
 		var main []*hBatch
 		for _, bs := range sc.Batches {
